@@ -813,9 +813,15 @@ func (g *G) recursionStmt() []Stmt {
 	g.declare(&Var{Name: name, K: KFn, NoAssign: true, Sig: &FnSig{NP: 2, Ret: KAny, FnParam: -1, Shadow: false}})
 	// do not let other generated code call it with arbitrary depth: mark as shadow-like (uncallable by callOf)
 	g.lookup(name).Sig = nil
-	form := g.pick(5, "recform")
+	form := g.pick(6, "recform")
 	if form == 4 {
 		return g.closureChainStmt(name)
+	}
+	if form == 5 {
+		if g.inTry == 0 {
+			return g.discardedThrowStmt(name)
+		}
+		form = 2
 	}
 	depth := int64(g.intn(0, 6, "recdepth"))
 	var body []Stmt
@@ -876,6 +882,38 @@ func (g *G) recursionStmt() []Stmt {
 		&Assign{Targets: []Expr{Id(name)}, Op: "=", X: fl},
 		use,
 	}
+}
+
+// discardedThrowStmt: a function whose last statement is a self call with the value discarded (the frame
+// is re-used and remembers that its result is dropped) and whose deepest activation throws - the error
+// unwinds through the re-used frame and is caught outside. Afterwards other functions are called at the
+// same depth and their results observed: nothing of the abandoned frame may stick to the next one.
+func (g *G) discardedThrowStmt(name string) []Stmt {
+	g.f("recursion-discarded-then-error-unwinds")
+	depth := int64(g.intn(1, 5, "dtdepth"))
+	other := name + "o"
+	thrower := name + "t"
+	body := []Stmt{
+		&If{Cond: &Binary{Op: "==", L: Id("n"), R: IntLit(0)}, Then: []Stmt{&ExprStmt{X: &Call{Fn: Id(thrower), Args: []Expr{Id("acc")}}}}},
+		&ExprStmt{X: &Call{Fn: Id(name), Args: []Expr{&Binary{Op: "-", L: Id("n"), R: IntLit(1)}, &Binary{Op: "+", L: Id("acc"), R: IntLit(1)}}}},
+	}
+	observe := func(x Expr) Stmt {
+		if g.cfg.Log {
+			return &ExprStmt{X: g.L(x)}
+		}
+		return &ExprStmt{X: x}
+	}
+	out := []Stmt{
+		&VarDecl{Names: []string{name}, Values: []Expr{nil}},
+		&Define{Names: []string{thrower}, X: &FuncLit{Params: []string{"x"}, Body: []Stmt{&Throw{X: StrLit("deep")}}}},
+		&Define{Names: []string{other}, X: &FuncLit{Params: []string{"x"}, Body: []Stmt{&Return{Xs: []Expr{&Binary{Op: "+", L: Id("x"), R: IntLit(1)}}}}}},
+		&Assign{Targets: []Expr{Id(name)}, Op: "=", X: &FuncLit{Params: []string{"n", "acc"}, Body: body}},
+		&Try{Body: []Stmt{&ExprStmt{X: &Call{Fn: Id(name), Args: []Expr{IntLit(depth), IntLit(0)}}}}, HasCatch: true, CatchIdent: name + "e",
+			Catch: []Stmt{observe(&Selector{X: Id(name + "e"), Name: "Message"})}},
+		observe(&Call{Fn: Id(other), Args: []Expr{IntLit(41)}}),
+		observe(&ArrayLit{Elems: []Expr{&Call{Fn: Id(other), Args: []Expr{IntLit(1)}}, &Call{Fn: &FuncLit{Body: []Stmt{&Return{Xs: []Expr{&Call{Fn: Id(other), Args: []Expr{IntLit(2)}}}}}}}}}),
+	}
+	return out
 }
 
 // closureChainStmt: several closures made from ONE function literal (a factory called with different
